@@ -89,10 +89,11 @@ pub fn decode(inp: &Inp, step: usize, kind: u8, hist_cap: usize) -> Scn {
         rd64(inp, 120),
         rd64(inp, 128),
     ];
-    let mut hl = (inp[63] as usize) % (HIST_MAX + 1);
-    if hl > hist_cap {
-        hl = hist_cap;
-    }
+    // The history length is CONCRETE per harness instance (= hist_cap): with a symbolic length the
+    // Arc reference counts become symbolic and every List drop forks into drop_slow recursion.
+    // Nothing is lost: the engine only counts entries equal to a probe hash, so a shorter history
+    // behaves exactly like this one with the extra entries chosen different from every probe.
+    let hl = if hist_cap > HIST_MAX { HIST_MAX } else { hist_cap };
     Scn {
         board,
         gold: flags & 1 == 1,
@@ -192,7 +193,9 @@ pub fn build_state(s: &Scn) -> GameState {
     let mut list: List<Zobrist> = List::new();
     each!([0usize, 1, 2, 3, 4, 5], k, {
         if k < s.hist_len {
-            list = list.append(Zobrist::from_raw(s.hist[k]));
+            let longer = list.append(Zobrist::from_raw(s.hist[k]));
+            // the shorter list is leaked, not dropped (keeps drop glue out of the harness)
+            std::mem::forget(std::mem::replace(&mut list, longer));
         }
     });
     let mut prev: Vec<PieceBoard> = Vec::with_capacity(3);
